@@ -1,47 +1,47 @@
 (* C17 property theorems (statements only; proofs in Proofs.v).
-   K / K_eqb / H = the key type, its equality and sha256-hexdigest: universally quantified.  Nothing is
-   assumed about H; what the round trip needs is stated as the premise key_injective_on. *)
+   K / K_eqb / H / enc = the key type, its equality, sha256-hexdigest and the encoding of the identifying
+   fields: universally quantified; what the round trip needs of them is stated as explicit premises. *)
 From Slsk Require Import Base.Tac.
 From Coq Require Import Permutation.
 From SlskGen Require Import TransGen.
 From Slsk Require Import C03.Spec C03.Model C17.Model C17.Proofs.
 
-(* write then read: the database holds exactly the pickles of the listed transfers, each exactly once,
-   whatever it held before (stale entries removed, existing ones overwritten) -- provided the keys of the
-   listed transfers do not collide. *)
-Theorem C17_roundtrip_set : forall K K_eqb H, (forall a b : K, K_eqb a b = true <-> a = b) ->
-  forall d ts, NoDup (map fst d) -> db_ok K H d ->
-  NoDup (map ident_of ts) -> key_injective_on K H ts ->
-  Permutation (map snd (write K K_eqb H d ts)) (map getstate ts) /\
-  NoDup (map fst (write K K_eqb H d ts)) /\ db_ok K H (write K K_eqb H d ts).
+(* write then read: the database holds exactly the pickles of the listed transfers, each exactly once and
+   under its current key, WHATEVER it held before and under whatever keys (stale entries, entries written
+   by versions with the old key format) -- provided sha256 does not collide on the listed transfers.
+   enc = repr((username, remote_path, direction.value)): injective (CPython oracle, explicit premise). *)
+Theorem C17_roundtrip_set : forall K K_eqb H enc, (forall a b : K, K_eqb a b = true <-> a = b) ->
+  (forall a b : ident, enc a = enc b -> a = b) ->
+  forall d ts, NoDup (map fst d) -> NoDup (map ident_of ts) -> hash_injective_on K H enc ts ->
+  Permutation (map snd (write K K_eqb H enc d ts)) (map getstate ts) /\
+  NoDup (map fst (write K K_eqb H enc d ts)) /\
+  (forall k, In k (map fst (write K K_eqb H enc d ts)) <-> In k (map (key K H enc) ts)).
 Proof. exact roundtrip_thm. Qed.
 
 (* ... and a new client unpickles each of them once, with the persisted fields unchanged
    (norm: fresh runtime fields; abort_reason None of an ABORTED transfer becomes REQUESTED). *)
-Theorem C17_roundtrip_read : forall K K_eqb H, (forall a b : K, K_eqb a b = true <-> a = b) ->
-  forall d ts, NoDup (map fst d) -> db_ok K H d ->
-  NoDup (map ident_of ts) -> key_injective_on K H ts -> (forall t, In t ts -> has_class (m_state t) = true) ->
-  Permutation (read K (write K K_eqb H d ts)) (map (fun t => Some (norm t)) ts).
+Theorem C17_roundtrip_read : forall K K_eqb H enc, (forall a b : K, K_eqb a b = true <-> a = b) ->
+  (forall a b : ident, enc a = enc b -> a = b) ->
+  forall d ts, NoDup (map fst d) -> NoDup (map ident_of ts) -> hash_injective_on K H enc ts ->
+  (forall t, In t ts -> has_class (m_state t) = true) ->
+  Permutation (read K (write K K_eqb H enc d ts)) (map (fun t => Some (norm t)) ts).
 Proof. exact roundtrip_read_thm. Qed.
 
 Theorem C17_pickle_roundtrip : forall m, has_class (m_state m) = true -> setstate (getstate m) = Some (norm m).
 Proof. exact setstate_getstate. Qed.
 
-(* Finding F21: without the premise the statement is false for EVERY hash function: the hashed string
-   username + remote_path + str(direction) has no separators, so ("ab","c") and ("a","bc") share a key
-   and one of two distinct transfers is lost. *)
-Theorem C17_roundtrip_refuted : forall K K_eqb H, (forall a b : K, K_eqb a b = true <-> a = b) ->
-  exists ts, NoDup (map ident_of ts) /\ (forall t, In t ts -> has_class (m_state t) = true) /\
-    length (write K K_eqb H [] ts) < length ts /\ ~ key_injective_on K H ts.
-Proof. exact roundtrip_refuted_thm. Qed.
+(* (fixed) finding F21: the pair that shared a key under plain concatenation is separated by every injective encoding *)
+Theorem C17_keys_separate : forall enc : ident -> list N, (forall a b, enc a = enc b -> a = b) ->
+  keystr (ident_of f21_a) = keystr (ident_of f21_b) /\ enc (ident_of f21_a) <> enc (ident_of f21_b).
+Proof. exact f21_pair_separated. Qed.
 
-(* removed transfers are gone, from the database and from what a new client loads (no premise) *)
-Theorem C17_removed_gone : forall K K_eqb H d ts r, In r (map snd (write K K_eqb H d ts)) ->
-  exists t, In t ts /\ ident_of t = ident_of (p_m r).
+(* removed transfers are gone, from the database and from what a new client loads (no premise at all) *)
+Theorem C17_removed_gone : forall K K_eqb H enc, (forall a b : K, K_eqb a b = true <-> a = b) ->
+  forall d ts r, In r (map snd (write K K_eqb H enc d ts)) -> exists t, In t ts /\ r = getstate t.
 Proof. exact removed_gone_thm. Qed.
 
-Theorem C17_removed_gone_load : forall K K_eqb H d ts m, In m (load K (write K K_eqb H d ts)) ->
-  exists t, In t ts /\ ident_of t = ident_of m.
+Theorem C17_removed_gone_load : forall K K_eqb H enc, (forall a b : K, K_eqb a b = true <-> a = b) ->
+  forall d ts m, In m (load K (write K K_eqb H enc d ts)) -> exists t, In t ts /\ ident_of t = ident_of m.
 Proof. exact removed_gone_load_thm. Qed.
 
 (* after load_data no transfer is in progress, no remote-queue mark survives, every transfer is registered *)
@@ -68,15 +68,20 @@ Proof. exact loaded_like_fresh_thm. Qed.
 Definition ex_t (u p : list N) (d : direction) (s : st) (fs : option N) (b : N) : mt :=
   mkMt u p d s (Some 3%N) true (Some 2%N) None None fs b 1%N 0%N (Some 5%N) None false true.
 
+Definition enc_ex (i : ident) : list N := match i with (u, p, d) => N.of_nat (length u) :: u ++ p ++ [dir_digit d] end.
+
+(* three transfers (both directions of one name) over a database written with the OLD keys, plus the F21 pair *)
 Example C17_roundtrip_nonvacuous :
   let ts := [ex_t [97] [98] Download DOWNLOADING (Some 10) 10; ex_t [97] [98] Upload UPLOADING (Some 10) 4;
-             ex_t [120] [121] Download INITIALIZING None 0]%N in
-  NoDup (map ident_of ts) /\ key_injective_on (list N) (fun x => x) ts /\
-  map m_state (load (list N) (write (list N) bytes_eqb (fun x => x) [] ts)) = [QUEUED; INCOMPLETE; COMPLETE].
+             ex_t [120] [121] Download INITIALIZING None 0; f21_a; f21_b]%N in
+  let old := map (fun t => (keystr (ident_of t), getstate t)) [ex_t [97] [98] Download QUEUED None 0; ex_t [1] [2] Upload PAUSED None 0]%N in
+  NoDup (map ident_of ts) /\ hash_injective_on (list N) (fun x => x) enc_ex ts /\ NoDup (map fst old) /\
+  map m_state (load (list N) (write (list N) bytes_eqb (fun x => x) enc_ex old ts)) = [QUEUED; QUEUED; QUEUED; INCOMPLETE; COMPLETE].
 Proof.
-  cbv zeta. split; [|split].
+  cbv zeta. split; [|split; [|split]].
   - repeat constructor; cbn; intuition discriminate.
-  - intros a b [<-|[<-|[<-|[]]]] [<-|[<-|[<-|[]]]] E; try reflexivity; vm_compute in E; discriminate E.
+  - intros a b _ _ E. exact E.
+  - repeat constructor; cbn; intuition discriminate.
   - vm_compute. reflexivity.
 Qed.
 
